@@ -294,7 +294,10 @@ fn check_single(f: &M) -> CaseOut {
     for mask in 0..(1u32 << rows) {
         let idx: Vec<usize> = (0..rows).filter(|i| mask & (1 << i) != 0).collect();
         out.add("evaluations", 1);
-        match catch(|| fr.remove_rows(idx.clone())) {
+        // the index set is passed as a Vec for even masks and as a lazily filtered iterator (size_hint lower bound 0)
+        // for odd ones
+        let res = if mask % 2 == 0 { catch(|| fr.remove_rows(idx.clone())) } else { catch(|| fr.remove_rows((0..rows).filter(|i| mask & (1 << i) != 0))) };
+        match res {
             Err(m) => viol(&mut out, "remove_rows", "panic", format!("remove_rows({:?}): {m}", idx), rec("remove_rows")),
             Ok(h) => {
                 let em: Vec<Vec<Q>> = fm.iter().enumerate().filter(|(i, _)| !idx.contains(i)).map(|(_, r)| r.clone()).collect();
@@ -448,6 +451,21 @@ fn check_constructors(dim: usize) -> CaseOut {
 
 pub fn cases(tier: Tier) -> Vec<Case> {
     let mut v = vec![];
+    // functions without inputs (R^0 -> R^r, constants) and without outputs (R^n -> R^0)
+    {
+        let z = |r: usize, c: usize, b0: f64| M { mat: vec![vec![0.0; c]; r], bias: (0..r).map(|i| b0 + i as f64).collect(), cols: c, fortran: false, mirrored: false };
+        let zs = vec![z(1, 0, 1.0), z(2, 0, -1.0), z(2, 0, 3.0), z(0, 2, 0.0), z(0, 0, 0.0), z(0, 1, 0.0)];
+        for f in &zs {
+            v.push(Case::Single(f.clone()));
+            for g in &zs {
+                v.push(Case::Pair(f.clone(), g.clone()));
+            }
+        }
+        // an ordinary function next to them (compose through R^0 is not possible, stack with zero rows is)
+        let ord = M { mat: vec![vec![1.0, -2.0]], bias: vec![0.5], cols: 2, fortran: false, mirrored: false };
+        v.push(Case::Pair(ord.clone(), z(0, 2, 0.0)));
+        v.push(Case::Pair(z(0, 2, 0.0), ord));
+    }
     // entries whose square underflows (2^-600) or overflows (2^600): they are non-zero all the same
     let (tiny, huge) = (2f64.powi(-600), 2f64.powi(600));
     for e in [tiny, -tiny, huge] {
